@@ -22,7 +22,7 @@ META = {
         "late listeners only provide plain names (convention and inline name references), as documented",
     ],
     "must_observe": ["events_executed", "listeners_added_late", "multi_provider_guard_evals", "other_instance_steps", "reattachments"],
-    "shard_timeout": {"quick": 300, "thorough": 3400},
+    "shard_timeout": {"quick": 900, "thorough": 3400},
 }
 
 PROFILE = {"n_states": (2, 5), "n_events": (1, 3), "extra_transitions": (1, 5), "p_multi_event": 0.2,
